@@ -802,7 +802,8 @@ def reparse_cases(ctx):
         if has_empty_group(t) or not t:
             continue
         s_ = format_canonical(t)
-        via = r.choice(["parse_notation", "Pattern.pattern", "PDict", "PSequence", "str-subclass"])
+        via = r.choice(["parse_notation", "Pattern.pattern", "PDict", "PSequence", "str-subclass", "same-dict-twice", "same-dict-twice"])
+        the_dict = {"note": s_, "args": {"x": s_}} if r.random() < 0.5 else {"note": s_}     # ONE dict object, used for every PDict
 
         class Text(str):
             """a string that is an instance of a subclass of str (numpy.str_, a YAML loader's scalar …): parsed like any str"""
@@ -816,6 +817,10 @@ def reparse_cases(ctx):
                 return iso.PSequence(s_)
             if via == "str-subclass":
                 return iso.Pattern.pattern(Text(s_)) if r.random() < 0.5 else iso.PDict({"note": Text(s_)})["note"]
+            if via == "same-dict-twice":
+                # the caller's dict is data: building a PDict (or scheduling a track) from it twice parses its strings twice,
+                # and leaves the dict as it was
+                return iso.PDict(the_dict)["note"]
             return iso.PDict({"note": s_})["note"]
         try:
             p1 = mk()
@@ -836,7 +841,10 @@ def reparse_cases(ctx):
         ctx.case(("reparse", s_, via, n, k), nontrivial=len(first) > 1, validated=False,
                  sample={"reparse": {"string": s_, "via": via, "first": first[:5]}} if i < 2 else None)
         ctx.count("reparse:" + via)
-        if p1 is p2:
+        if via == "same-dict-twice" and the_dict["note"] is not s_:
+            ctx.violation("C20:reparse:callers-dict-changed", "PDict(d) replaced d['note'] = %r by %r in the caller's dict" % (s_, the_dict["note"]),
+                          {"suite": "reparse", "string": s_, "via": via})
+        elif p1 is p2:
             ctx.violation("C20:reparse:same-object", "%s(%r) returned the same stateful object twice" % (via, s_),
                           {"suite": "reparse", "string": s_, "via": via})
         elif via == "str-subclass" and not isinstance(p2, iso.PSequence):
